@@ -45,6 +45,10 @@ def PyVal.getStr (tbl : List (String × String)) : PyVal → PyVal
 def PyVal.between (a b : Int) : PyVal → Bool
   | .int i => decide (a ≤ i) && decide (i ≤ b)
   | _ => false
+/-- `a <(=) v <(=) b` with strict bounds where flagged (a rewritten range test is translated as written) -/
+def PyVal.betweenX (a : Int) (sa : Bool) (b : Int) (sb : Bool) : PyVal → Bool
+  | .int i => (if sa then decide (a < i) else decide (a ≤ i)) && (if sb then decide (i < b) else decide (i ≤ b))
+  | _ => false
 /-- Python truthiness -/
 def PyVal.truthy : PyVal → Bool
   | .str s => s != "" | .int i => i != 0 | .none => false | .other => true
